@@ -63,8 +63,19 @@ type World struct {
 	inCheck bool
 }
 
-// V reports a violation of property code.
+// V reports a violation of property code. A discrepancy that several properties forbid is given as
+// "C02|C05": it is reported under the first of them that is in focus.
 func (w *World) V(code, format string, args ...any) {
+	if strings.Contains(code, "|") {
+		codes := strings.Split(code, "|")
+		code = codes[0]
+		for _, c := range codes {
+			if w.Focus != nil && w.Focus[c] {
+				code = c
+				break
+			}
+		}
+	}
 	if w.Focus == nil || w.Focus[code] {
 		w.T.Fatalf("VIOLATION["+code+"]: "+format, args...)
 	}
